@@ -470,3 +470,60 @@ refactor("c10-r-notify-helper", "C10", DISP,
          NOTIFY + "\n    def create_or_get_observer(",
          "        self._notify(scheduled_operation)\n\n    def _notify(self, scheduled_operation: ScheduledOperation) -> None:\n" + NOTIFY + "\n    def create_or_get_observer(")
 refactor("c10-r-hist-clear", "C10", HIST, "    def reset(self):\n        self.history = []", "    def reset(self):\n        self.history.clear()")
+
+# ------------------------------------------------------------------ C01
+REW = "job_shop_lib/reinforcement_learning/_reward_observers.py"
+mutant("c01-no-order-check", "C01", "R01.a", SCH,
+       "        self._check_start_time_of_new_operation(scheduled_operation)\n        self.schedule[", "        self.schedule[")
+mutant("c01-lt", "C01", "R01.d", SCH,
+       "        return previous_operation.end_time <= scheduled_operation.start_time",
+       "        return previous_operation.start_time <= scheduled_operation.start_time",
+       "accepts overlap with a long predecessor")
+mutant("c01-first-not-last", "C01", "R01.d", SCH,
+       "        last_operation = self.schedule[new_operation.machine_id][-1]",
+       "        last_operation = self.schedule[new_operation.machine_id][0]",
+       "needs three operations on a machine to matter")
+mutant("c01-swapped-args", "C01", "R01.d", SCH,
+       "        if not self._is_valid_start_time(new_operation, last_operation):",
+       "        if not self._is_valid_start_time(last_operation, new_operation):")
+mutant("c01-wrong-machine-list", "C01", "R01.a", SCH,
+       "        self.schedule[scheduled_operation.machine_id].append(\n            scheduled_operation\n        )",
+       "        self.schedule[scheduled_operation.operation.machines[0]].append(\n            scheduled_operation\n        )",
+       "flexible operations land on their first machine's list")
+mutant("c01-insert-front", "C01", "R01.a", SCH,
+       "        self.schedule[scheduled_operation.machine_id].append(\n            scheduled_operation\n        )",
+       "        self.schedule[scheduled_operation.machine_id].insert(\n            0, scheduled_operation\n        )")
+mutant("c01-setter-no-check", "C01", "R01.b", SCH,
+       "        Schedule.check_schedule(new_schedule)\n        self._schedule = new_schedule", "        self._schedule = new_schedule")
+mutant("c01-outside-writer", "C01", "R01.b", REW,
+       "        machine_schedule = self.dispatcher.schedule.schedule[machine_id][:-1]",
+       "        machine_schedule = self.dispatcher.schedule.schedule[machine_id][:-1]\n        self.dispatcher.schedule.schedule[machine_id].sort(key=lambda s: s.start_time)")
+mutant("c01-alias-writer", "C01", "R01.b", REW,
+       "        machine_schedule = self.dispatcher.schedule.schedule[machine_id][:-1]",
+       "        full = self.dispatcher.schedule.schedule[machine_id]\n        full.reverse()\n        machine_schedule = full[:-1]")
+mutant("c01-advance-before-add", "C01", "R01.c", DISP,
+       "        self.schedule.add(scheduled_operation)\n        self._update_tracking_attributes(scheduled_operation)",
+       "        self._update_tracking_attributes(scheduled_operation)\n        self.schedule.add(scheduled_operation)")
+mutant("c01-eligibility-wrong-field", "C01", "R01.a", SOP,
+       "        if value not in self.operation.machines:", "        if self._machine_id not in self.operation.machines:",
+       "setter validates the old id, not the new one")
+mutant("c01-check-schedule-no-machine", "C01", "R01.d", SCH,
+       """                if scheduled_operation.machine_id != machine_id:
+                    raise ValidationError(
+                        "The machine id of the scheduled operation "
+                        f"({ScheduledOperation.machine_id}) does not match "
+                        f"the machine id of the machine schedule ({machine_id}"
+                        f"). Index of the operation: [{machine_id}][{i}]."
+                    )
+""", "")
+refactor("c01-r-inline-first", "C01", SCH,
+         """        is_first_operation = not self.schedule[new_operation.machine_id]
+        if is_first_operation:
+            return
+""",
+         """        if not self.schedule[new_operation.machine_id]:
+            return
+""") 
+refactor("c01-r-ge", "C01", SCH,
+         "        return previous_operation.end_time <= scheduled_operation.start_time",
+         "        return scheduled_operation.start_time >= previous_operation.end_time")
